@@ -1258,6 +1258,21 @@ impl C15 {
                 if r.ok {
                     out.push(v15("two_hop_same_pool", idx, format!("{} accepted the same pool for both legs", name)));
                 }
+                // a route that does not chain: one leg's direction flipped (every account still genuine and of the named pools), so
+                // that what leg one pays out is not the token leg two takes in
+                if v.ix.data.len() > 26 {
+                    for (which, off) in [("first", 25usize), ("second", 26usize)] {
+                        let mut ixn = v.ix.clone();
+                        ixn.data[off] ^= 1;
+                        let r = exec(l, ixn);
+                        cov.eval(format!("{}|route_does_not_chain|{}", name, which));
+                        self.cell(format!("{} / direction of the {} leg flipped: the route does not chain", name, which), !r.ok);
+                        if r.ok {
+                            out.push(v15("route_does_not_chain", idx, format!("{} succeeds with the direction of its {} leg flipped: the token leg one pays out is not the token leg two takes in", name, which)));
+                            return;
+                        }
+                    }
+                }
                 // the consistent version: one pool's genuine accounts in both legs, opposite directions
                 let acc = crate::mon::c17::same_pool_twice_accepted(v.ix, l, cov);
                 self.cell(format!("{} / both legs / one pool's genuine accounts twice", name), acc.is_none());
